@@ -57,6 +57,8 @@ def bit(value: int, byte: int, position: int) -> int:
     :param position: The position in the byte to set the bit on
 
     """
+    if value not in (0, 1):
+        raise TypeError('bool required, received {!r}'.format(value))
     return byte | (value << position)
 
 
